@@ -3,7 +3,7 @@ from __future__ import annotations
 
 import z3
 
-from .. import core, econ, harness
+from .. import core, econ, harness, shim
 from ..core import eq, sand, sor, snot, sym, symbool, SymReal, SymBool
 from . import c04
 
@@ -137,7 +137,8 @@ def econ_drive(cfg, vals, symbolic):
     return m
 
 
-def econ_obligations(cfg, m, vals):
+def econ_obligations(cfg, m, vals, near=False):
+    eq = core.near if near else globals()['eq']      # noqa: F811 (input-path units: code folds float constants on equal-to-default paths)
     e = m.economics
     L, K = cfg['L'], cfg['K']
     p = c04.products_of(cfg['kind'])[0]
@@ -210,8 +211,103 @@ def run_econ_unit(unit):
             yield log.result()
 
 
+# ---- the same clauses entered through the real reader: credit, price, ITC rate, fees and tax relief as the input lines state them ----------
+INPUT_SYM = ['PTC{p}', '{p}StartPrice', 'RITC', 'AnnualLicenseEtc', 'TaxRelief']       # numeric tokens that are solver variables
+INPUT_FIXED = {'totalcapcost': 80.0, 'oamtotalfixed': 3.0, '{p}EndPrice': 0.4, '{p}EscalationRate': 0.01, 'TotalGrant': 2.5, 'OtherIncentives': 1.5,
+               'FlatLicenseEtc': 0.75, 'RINFL': 0.03}
+
+
+def run_econ_input(unit):
+    from . import c07
+    P = c07.P
+    cfg = {k: v for k, v in unit.items() if k != 'tier'}
+    L, K = cfg['L'], cfg['K']
+    p = c04.products_of(cfg['kind'])[0]
+    rng = dict((n, (lo, hi)) for n, _, lo, hi in econ_spec(cfg))
+    for (sy, d) in ((1, 1), (0, L)):
+        cfg2 = dict(cfg, s=sy, d=d)
+        log = harness.UnitLog(dict(cfg2, harness='econ-from-input-lines'))
+        sym_attrs = [a.format(p=p) for a in INPUT_SYM]
+        fixed = {a.format(p=p): v for a, v in INPUT_FIXED.items()}
+
+        def drive(vals, symbolic, cfg2=cfg2, sym_attrs=sym_attrs, fixed=fixed):
+            pr = c04.prepared({k: v for k, v in cfg2.items() if k not in ('harness', 's', 'd')})
+            m = pr.reset()
+            e = m.economics
+            entries = {}
+
+            def line(attr, tok):
+                name = getattr(e, attr).Name.strip()
+                entries[name] = P.ParameterEntry(Name=name, sValue=tok, raw_entry=f'{name}, {tok}')
+            for a in sym_attrs:
+                if symbolic:
+                    tok = c07.NumStr('SYMV')
+                    tok.proxy = vals['economics.' + a]
+                else:
+                    tok = repr(float(vals['economics.' + a]))
+                line(a, tok)
+            for a, v in fixed.items():
+                line(a, repr(v))
+            line('PTCDuration', str(cfg2['d']))
+            line(f'{p}EscalationStart', str(cfg2['s']))
+            m.InputParameters = entries
+            import contextlib
+            import io
+            with contextlib.redirect_stdout(io.StringIO()):
+                if symbolic:
+                    with shim.shadow(*c07.param_shadows()):
+                        e.read_parameters(m)
+                else:
+                    e.read_parameters(m)
+            e.PTCInflationAdjusted.value = vals['economics.PTCInflationAdjusted']
+            econ.run_econ(m, symbolic=symbolic)
+            return m
+
+        def stated(vals, fixed=fixed):
+            v = dict(vals)
+            for a, x in fixed.items():
+                v['economics.' + a] = x
+            v['economics.RITC.Provided'] = True       # the line is present
+            return v
+        spec = [(f'economics.{a}', 'real') + rng[f'economics.{a}'] for a in sym_attrs] + [('economics.PTCInflationAdjusted', 'bool', None, None)]
+
+        def concrete(inp, only=None, cfg2=cfg2, drive=drive, stated=stated, spec=spec):
+            vals = econ.concrete_vals(spec, inp)
+            try:
+                m = drive(vals, False)
+                obs = econ_obligations(cfg2, m, stated(vals), near=True)
+            except (ZeroDivisionError, ValueError) as ex:
+                return False, {'no result': repr(ex)[:100]}
+            bad = [n for n, ok in obs if not ok and (only is None or n == only)]
+            e = m.economics
+            return bool(bad), {'failed': bad[:6], 'input lines (symbolic ones)': {k: vals[k] for k in vals}, 'CCap': e.CCap.value, 'Coam': e.Coam.value,
+                               'price': [float(x) for x in getattr(e, f'{p}Price').value], 'credit marked as provided': bool(getattr(e, f'PTC{p}').Provided)}
+
+        def fn(drive=drive, stated=stated, spec=spec, cfg2=cfg2):
+            vals, zv = econ.make_symbolic(spec)
+            m = drive(vals, True)
+            return zv, econ_obligations(cfg2, m, stated(vals), near=True)
+        n = 0
+        for pr in core.explore(fn, max_paths=20000, catch=(ValueError, RuntimeError)):
+            log.path(pr)
+            n += 1
+            if pr.aborted or pr.error is not None:
+                continue
+            zv, obs = pr.value
+            if n <= 20 or n % 20 == 0:
+                harness.reachable(log, pr.ctx, 2000)
+            for name, cond in obs:
+                harness.discharge(log, pr.ctx, 'from the input lines: ' + name, cond, zv, lambda inp, name=name, concrete=concrete: concrete(inp, only=name),
+                                  timeout_ms=20000, sample=(n == 1))
+        yield log.result()
+
+
 def units(tier, seed):
     us = [{'harness': 'builders', 'L': L} for L in range(1, LMAX[tier] + 1)]
+    for kind in (('electricity',) if tier == 'quick' else ('electricity', 'direct-use', 'chiller')):
+        c = econ_cfg(2, 1, kind)
+        c['harness'] = 'econ-input'
+        us.append(c)
     for (L, K) in ECON_BOUNDS[tier]:
         for kind in ('electricity', 'direct-use', 'chiller'):
             us.append(econ_cfg(L, K, kind))
@@ -221,6 +317,8 @@ def units(tier, seed):
 def run_unit(unit):
     if unit['harness'] == 'builders':
         yield from run_builders(unit)
+    elif unit['harness'] == 'econ-input':
+        yield from run_econ_input(unit)
     else:
         yield from run_econ_unit(unit)
 
